@@ -8,6 +8,7 @@ behaviour-preserving rewrite inside a family cannot change a verdict (selftest/n
                 two side-effect free non-constant operands of == / != are ordered by their text
   updates       `x = x <op> e` -> `x <op>= e`               (plain name or dotted attribute target)
   polarity      `if not c: A else: B` -> `if c: B else: A`  (every two-armed if, also conditional expressions)
+  struct        module-level `S = struct.Struct(fmt)`: `S.pack(..)` -> `struct.pack(fmt, ..)`, `S.size` -> `struct.calcsize(fmt)`
 
 Locations are kept (copy_location), so reports still point at the source line.
 """
@@ -82,7 +83,43 @@ class Canon(ast.NodeTransformer):
         return node
 
 
+class StructConst(ast.NodeTransformer):
+    """`S = struct.Struct(fmt)` at module level: S.pack(a..) -> struct.pack(fmt, a..), S.unpack(b) -> struct.unpack(fmt, b),
+    S.unpack_from / S.pack_into / S.iter_unpack likewise, S.size -> struct.calcsize(fmt)."""
+
+    def __init__(self, table):
+        self.t = table
+
+    def _struct(self, attr, node):
+        return ast.copy_location(ast.Attribute(value=ast.Name(id="struct", ctx=ast.Load()), attr=attr, ctx=ast.Load()), node)
+
+    def visit_Call(self, node):
+        self.generic_visit(node)
+        f = node.func
+        if isinstance(f, ast.Attribute) and isinstance(f.value, ast.Name) and f.value.id in self.t \
+                and f.attr in ("pack", "unpack", "unpack_from", "pack_into", "iter_unpack"):
+            import copy
+            return ast.copy_location(ast.Call(func=self._struct(f.attr, node), args=[copy.deepcopy(self.t[f.value.id])] + node.args,
+                                              keywords=node.keywords), node)
+        return node
+
+    def visit_Attribute(self, node):
+        self.generic_visit(node)
+        if isinstance(node.value, ast.Name) and node.value.id in self.t and node.attr == "size" and isinstance(node.ctx, ast.Load):
+            import copy
+            return ast.copy_location(ast.Call(func=self._struct("calcsize", node), args=[copy.deepcopy(self.t[node.value.id])], keywords=[]), node)
+        return node
+
+
 def canonicalise(tree: ast.AST) -> ast.AST:
+    table = {}
+    for s_ in getattr(tree, "body", []):
+        if isinstance(s_, ast.Assign) and len(s_.targets) == 1 and isinstance(s_.targets[0], ast.Name) and isinstance(s_.value, ast.Call) \
+                and isinstance(s_.value.func, ast.Attribute) and s_.value.func.attr == "Struct" and isinstance(s_.value.func.value, ast.Name) \
+                and s_.value.func.value.id == "struct" and len(s_.value.args) == 1:
+            table[s_.targets[0].id] = s_.value.args[0]
+    if table:
+        tree = StructConst(table).visit(tree)
     new = Canon().visit(tree)
     ast.fix_missing_locations(new)
     return new
